@@ -487,7 +487,7 @@ def exhaustive(ctx, chi):
 
 def run(ctx):
     chi = core.import_chi()
-    n = 60 if ctx.tier == 'quick' else 1200
+    n = 250 if ctx.tier == 'quick' else 2500
     for i in range(n):
         rng = ctx.sub_rng(i)
         A = ADAPTERS[i % len(ADAPTERS)]
